@@ -269,6 +269,8 @@ var c10Scenarios = map[string][]string{
 	"two-withdraws-one-link":       {"withdraw W1", "withdraw W1", "link W1 H2"},
 	// two clients asking for hosts at the same moment (the drivers' host selection is shared state)
 	"two-peer-requests": {"peer C1", "peer C2"},
+	// (requesters without tracked peers: as many candidates as the limit, the selection is shuffled)
+	"two-peer-requests-by-hosts": {"peer H1", "peer H2"},
 	// a host's connection drops while the same host registers again on a new one, and while a
 	// client asks for hosts; afterwards a client asks again
 	"close-vs-rehost":      {"first:host H1 connA", "close connA", "host H1 connB", "then:peer C2"},
